@@ -53,8 +53,9 @@ var (
 		common.HexToAddress("0x0000000000000000000000000000000000000003"),
 	}
 	c13AddrNames = [3]string{"A", "B", "R"}
-	c13Slots     = [2]common.Hash{common.HexToHash("0x01"), common.HexToHash("0x02")}
-	c13Codes     = [3][]byte{nil, {0x60, 0x00}, {0x60, 0x01, 0x00}}
+	// slot keys of different byte widths, the numerically larger one with the smaller leading byte
+	c13Slots = [2]common.Hash{common.HexToHash("0x0100"), common.HexToHash("0x02")}
+	c13Codes = [3][]byte{nil, {0x60, 0x00}, {0x60, 0x01, 0x00}}
 )
 
 func c13Val(v uint8) common.Hash { return common.BigToHash(big.NewInt(int64(v))) }
@@ -1024,6 +1025,36 @@ func c13SlotOps(a int, wide bool) []c13Op {
 	)
 }
 
+// c13ResurrectOps: destruction and re-creation of a committed contract with two slots inside one block, with
+// writes to either slot of the new incarnation and both kinds of transaction end (Finalise only / live
+// IntermediateRoot) anywhere in between: the storage of the previous incarnation must never be visible again,
+// neither for slots the new incarnation has written nor for slots it has not touched, also after its storage
+// trie has been created by an intermediate root. AddBalance keeps the re-created account alive under EIP-158.
+func c13ResurrectOps(a int, wide bool) []c13Op {
+	ops := []c13Op{
+		{kind: c13kSelfDestruct, a: a},
+		{kind: c13kAddBal, a: a, v: 1},
+		{kind: c13kSetState, a: a, s: 0, v: 2},
+		{kind: c13kSetState, a: a, s: 1, v: 1},
+	}
+	if wide {
+		ops = append(ops,
+			c13Op{kind: c13kSetState, a: a, s: 0, v: 0},
+			c13Op{kind: c13kSetState, a: a, s: 1, v: 0},
+			c13Op{kind: c13kSetState, a: a, s: 1, v: 2},
+			c13Op{kind: c13kSetNonce, a: a, v: 1},
+			c13Op{kind: c13kGetState, a: a, s: 1},
+			c13Op{kind: c13kSnapshot},
+			c13Op{kind: c13kRevert, v: 0},
+			c13Op{kind: c13kReadAll},
+		)
+	}
+	return append(ops,
+		c13Op{kind: c13kEndTx},
+		c13Op{kind: c13kEndTxRoot},
+	)
+}
+
 func c13Names(ops []c13Op) []string {
 	out := make([]string, len(ops))
 	for i, o := range ops {
@@ -1055,7 +1086,9 @@ func c13Explore(r *mc.R, family string, ru *c13Rules, start string, ops []c13Op,
 		return nil
 	})
 	before := c13Observed.Load()
-	defer func() { r.Bound(fmt.Sprintf("%s/%s/%s.transitions", family, ru.name, start), c13Observed.Load()-before) }()
+	defer func() {
+		r.Bound(fmt.Sprintf("%s/%s/%s.transitions", family, ru.name, start), c13Observed.Load()-before)
+	}()
 	r.Explore(mc.Config{
 		Name:  fmt.Sprintf("%s/%s/%s", family, ru.name, start),
 		Ops:   c13Names(ops),
@@ -1103,6 +1136,10 @@ func TestVerif_C13(t *testing.T) {
 			c13Explore(r, "slot", berlin, "contract", c13SlotOps(c13A, false), 10)
 			c13Explore(r, "slot", amsterdam, "funded", c13SlotOps(c13A, false), 10)
 			c13Explore(r, "slotwide", berlin, "contract", c13SlotOps(c13A, true), 5)
+			// destruct / resurrect of a contract with two committed slots, roots in between (real self-destruct rules)
+			r.Bound("resurrect_depth", 7)
+			c13Explore(r, "resurrect", pre158, "contract", c13ResurrectOps(c13A, false), 7)
+			c13Explore(r, "resurrect", berlin, "contract", c13ResurrectOps(c13A, false), 7)
 			// depth: one account, longer histories (journal counters, snapshot stacks, several transactions)
 			c13Explore(r, "deepB", berlin, "contract", c13DeepOps(c13B, false), 5)
 			c13Explore(r, "deepA", amsterdam, "funded", c13DeepOps(c13A, false), 5)
@@ -1121,6 +1158,12 @@ func TestVerif_C13(t *testing.T) {
 		all := []*c13Rules{berlin, amsterdam, pre158}
 		r.Bound("slot_depth", 12)
 		r.Bound("slot_wide_depth", 8)
+		r.Bound("resurrect_depth", 9)
+		r.Bound("resurrect_wide_depth", 6)
+		for _, ru := range []*c13Rules{berlin, pre158} {
+			c13Explore(r, "resurrect", ru, "contract", c13ResurrectOps(c13A, false), 9)
+			c13Explore(r, "resurrectwide", ru, "contract", c13ResurrectOps(c13A, true), 6)
+		}
 		for _, ru := range all {
 			c13Explore(r, "slot", ru, "contract", c13SlotOps(c13A, false), 12)
 			c13Explore(r, "slot", ru, "funded", c13SlotOps(c13A, false), 12)
